@@ -32,7 +32,9 @@ def core_corpus(rng):
         keysel = {a: G.FT[ft]["key"][a][0] for a in M.ATTRS}
         return {"ft": ft, "combo": combo, "key": {a: keysel[a][0] for a in M.ATTRS},
                 "keycaps": {a: sorted(keysel[a][1]) for a in M.ATTRS},
-                "by": {a: G.FT[ft]["by"][a][0] for a in M.ATTRS}, "dom": G.FT[ft]["dom"][:ndom]}, keysel
+                "by": {a: G.FT[ft]["by"][a][0] for a in M.ATTRS},
+                # for V keep the values where the partial key / by functions answer None (4, 5)
+                "dom": ([G.FT[ft]["dom"][i] for i in (0, 3, 4, 5)] if ft == "V" else G.FT[ft]["dom"][:ndom])}, keysel
 
     k = 0
     singles = []
